@@ -168,7 +168,7 @@ Definition int_store (t : ity) (parts : list (Z * Z)) (s : bytes) : res Z :=
   | Ok v => if validate_range parts v then Ok v else Err E_RANGE
   end.
 
-(* canonical string: asprintf("%" PRId8 .. PRId64 / PRIu64) *)
+(* canonical string: asprintf with the format PRId8 .. PRId64 / PRIu64 *)
 Definition Z_to_dec (v : Z) : bytes :=
   if (v <? 0)%Z then 45 :: N_to_dec (Z.abs_N v) else N_to_dec (Z.abs_N v).
 Definition int_canon (v : Z) : bytes := Z_to_dec v.
